@@ -37,8 +37,16 @@ for p in sorted(glob.glob(HERE + '/seeded/*/meta.json')):
         det += ' (after strengthening)'
     rows.append(f"| {name} | {m['property']} | {needs[:160].replace('|', '/')} | {det} | {str(m.get('detected_by', ''))[:220].replace('|', '/')} |")
 seed_tab = '\n'.join(rows)
+rows = ['| property-preserving change | property | check stays quiet | what had to be corrected |', '|---|---|---|---|']
+for p in sorted(glob.glob(HERE + '/benign/*/meta.json')):
+    m = json.load(open(p))
+    name = os.path.basename(os.path.dirname(p))
+    q = 'yes' if m.get('quiet') else 'NO (false alarm, being corrected)'
+    hist = m.get('history') or m.get('note') or ('-' if m.get('quiet') else 'alarmed on: ' + m.get('alarm_groups', ''))
+    rows.append(f"| {name} | {m['property']} | {q} | {str(hist)[:300].replace('|', '/')} |")
+benign_tab = '\n'.join(rows)
 d = open(HERE + '/DESIGN.md').read()
-for key, tab in (('FIXES', fix_tab), ('OPEN', open_tab), ('SEEDED', seed_tab)):
+for key, tab in (('FIXES', fix_tab), ('OPEN', open_tab), ('SEEDED', seed_tab), ('BENIGN', benign_tab)):
     a, b = f'<!-- GEN:{key}:BEGIN -->', f'<!-- GEN:{key}:END -->'
     if a in d:
         d = d[:d.index(a) + len(a)] + '\n' + tab + '\n' + d[d.index(b):]
